@@ -17,6 +17,7 @@ EXPLANATION = (
     "under the stated parameter assumptions; guard and wiring checks of the two-stage heuristic; and a homogeneity typing of dt0_adaptive "
     "in the unit of the state (y0, f(.), atol of degree 1): every +, -, max, min, comparison and selection combines equal degrees and the "
     "returned step is unit-free, i.e. all norms are tolerance-scaled as in Hairer-Norsett-Wanner II.4 (invariance under badly scaled states)."
+    "  Overflow safety for badly scaled states: every Euclidean norm in both helpers is taken of a quantity of degree 0 in the state unit (tolerance-scaled, or divided by its largest magnitude), since jnp.linalg.norm squares its entries."
 )
 LEVEL = "other"
 TECHNIQUE = "abstract interpretation over the AST: sign/interval analysis with disjunctive guard refinement at np.where, must-pass-through guard tracking, value-numbering normal form, homogeneity-degree (unit) typing"
